@@ -328,4 +328,15 @@ theorem custom_release_keeps_first (i j : Nat) (c : Coord) :
     r1 = none ∧ r2 = none ∧ e2 = .release i := by
   simp [St.release, CustomEv.update]
 
+/-- the general form: `CustomEvent` holds one event per tick, ordered `NoEvent < Press < Release`;
+whatever else the tick produces is dropped - a second release (its handler never runs: stuck
+unmod key, mouse button, wheel), a press that meets a release or another press (the action is
+never performed, and its later release releases something that was never pressed) -/
+theorem custom_event_holds_one (i j : Nat) :
+    (CustomEv.release i).update (.release j) = .release i ∧
+    (CustomEv.release i).update (.press j) = .release i ∧
+    (CustomEv.press i).update (.press j) = .press i ∧
+    (CustomEv.press i).update (.release j) = .release j := by
+  refine ⟨rfl, rfl, rfl, rfl⟩
+
 end KVerif.C01
